@@ -2,6 +2,7 @@ package main
 
 // C17: GoLite targets (docs/GOLITE_NOTES.md). Theorems: coq/props/C17_Generated.v.
 func init() {
+	const pf = "github.com/notaryproject/notation-plugin-framework-go/plugin"
 	Register("C17", []Target{
 		// metadata validation (clauses 3, 4 of docs/audit/C17.md) and the file name a plugin must have (clause 5)
 		{Pkg: ".../internal/slices", Func: "Contains"},
@@ -10,16 +11,19 @@ func init() {
 		// the budget a new LimitedWriter starts with (clause 8)
 		{Pkg: ".../internal/io", Func: "LimitWriter"},
 
-		// Refused by the translator; kept because the reason documents what is outside the subset:
-		// the cap arithmetic: `p = p[:l.N]` (slice of a slice, limitedwriter.go:48), then `l.N -= int64(n)`
-		// (store through the receiver, :51)
+		// the cap arithmetic (clause 8)
 		{Pkg: ".../internal/io", Func: "(*LimitedWriter).Write"},
-		// the error mapping after the process ended: plugin.Request (two-method interface), `resp interface{}`,
-		// json.Marshal / json.Unmarshal (any, out-parameter), the package variable `executor`
+		// the completeness rule of a structured error (clause 6); encoding/json is an oracle
+		{Pkg: "encoding/json", Func: "Unmarshal", Oracle: true, OutParams: []string{"v"}},
+		{Pkg: "encoding/json", Func: "Marshal", Oracle: true},
+		// NilIsEmpty: `tmp.Metadata == nil` is read as len == 0. The code tells a nil map from an empty one (an empty
+		// errorMetadata object makes the error complete): the theorems are restricted to "metadata nil or non-empty",
+		// where the two readings agree; the empty map stays with the harness (family stderr:metadata-empty-map).
+		{Pkg: ".../plugin/proto", Func: "(*RequestError).UnmarshalJSON", NilIsEmpty: true},
+		// the error mapping after the process ended (clauses 1, 2, 6, 7); the process execution is an oracle
+		{Pkg: pf, Type: "Request", Opaque: true, Views: map[string]string{"Command()": "string"}},
+		{Pkg: ".../plugin", Func: "commander.Output", Oracle: true},
 		{Pkg: ".../plugin", Func: "run"},
-		// the name check `metadata.Name != p.name` sits behind run(ctx, .., &metadata) (out-parameter)
 		{Pkg: ".../plugin", Func: "(*CLIPlugin).GetMetadata"},
-		// the completeness rule of a structured error: json.Unmarshal(data, &tmp), `tmp.Metadata == nil`, `*e = ..`
-		{Pkg: ".../plugin/proto", Func: "(*RequestError).UnmarshalJSON"},
 	})
 }
